@@ -530,8 +530,9 @@ Theorem dims_avc s :
     Z.of_N (ac_width ctx) = spec_width s /\ Z.of_N (ac_height ctx) = spec_height s.
 Proof.
   intro Hok. destruct (okb_fields s Hok) as (Hnri & _).
-  unfold parse_sps_avc, sps_nal. rewrite nal2rbsp_nal by lia.
-  pose proof (parse_sps_raw_encoded s [] Hok) as H. rewrite app_nil_r in H. exact H.
+  unfold parse_sps_avc, parse_sps_avc_f, sps_nal. rewrite nal2rbsp_nal by lia.
+  (* the zero byte ParseSps appends to the RBSP copy is one more byte of trailing data *)
+  exact (parse_sps_raw_encoded s [0] Hok).
 Qed.
 
 (* anything may follow the NAL unit in the buffer handed to ParseSps (lal's own
